@@ -271,7 +271,10 @@ def BVV(value, size=None, **kwargs) -> BV:
             pass
 
     result = BV("BVV", (value, size), length=size, **kwargs)
-    _bvv_cache[(value, size)] = result
+    if not kwargs:
+        # only the plain constant may be cached under (value, size): a constant built with annotations (or any other
+        # keyword) is a different object
+        _bvv_cache[(value, size)] = result
     return result
 
 
